@@ -57,7 +57,7 @@ def run(ctx: Ctx) -> None:
         if other and not inv:
             ctx.violation(f"valid expression raises {other[0]}", {"tree": T.to_json(e), "string": s}, key=f"other:{key}")
     # the validity check itself, through the parser (grouping as Lark produces it)
-    evalenv.configure_cer_based()
+    E.configure(ctx.rng)  # evaluators / providers suspend under a random schedule half of the time
     marks = ["Muss", "Soll", "Kann", "M", "X", "muss"]
     n_check = ctx.pick(150, 1500)
     checked = 0
